@@ -247,7 +247,7 @@ func protoChoices(prop string) []string {
 	case "C03", "C10":
 		return []string{"bolt", "http1", "boltpp", "boltv2", "dubbo", "http2"}
 	case "C02":
-		return []string{"bolt", "http1", "boltpp", "boltv2", "dubbo"}
+		return []string{"bolt", "http1", "boltpp", "boltv2", "dubbo", "http2"}
 	}
 	return []string{"bolt", "http1", "boltpp", "boltv2"}
 }
@@ -492,6 +492,9 @@ func (w *Proxy) drawAction(ch *sim.Choices) peers.Action {
 		a.Kind = "half_close"
 	case k == 18:
 		a.Kind = "reply_close"
+		if p.Proto == "http1" && ch.Bool("work", "connclosehdr") {
+			a.Kind = "reply_connclose"
+		}
 	default:
 		a.Kind = "reply"
 		a.Err = true
@@ -892,6 +895,7 @@ func (w *Proxy) finish() {
 	if w.P.Proto == "http2" {
 		if w.P.Faults {
 			w.checkC03() // scripted upstream failures: the fidelity oracle of C18 does not apply, the outcome oracle does
+			w.checkC02H2()
 			return
 		}
 		w.checkC18()
@@ -1073,7 +1077,43 @@ func (w *Proxy) h1ReplyBuilder(u *peers.H1Upstream, r *peers.ReqRec, up *peers.U
 	}
 	m.Body = body
 	m.Chunked = len(r.Frame)%5 == 0
+	if v := r.Extra["odd_resp_headers"]; v != "" {
+		var mask int
+		fmt.Sscan(v, &mask)
+		m.Headers = append(m.Headers, h1OddByMask(mask, true)...)
+	}
 	return m
+}
+
+// header fields beyond the plain ones (C01: "header fields ... unchanged"): a repeated field, an empty
+// value, a value with inner spaces, commas and quotes, a lower-case name, cookies
+var h1OddSets = [][]peers.KV{
+	{{K: "X-Multi", V: "one"}, {K: "X-Multi", V: "two"}},
+	{{K: "X-Empty", V: ""}},
+	{{K: "X-Odd", V: `a, b;c="d"  e=f`}},
+	{{K: "x-lower-case-name", V: "MixedCaseValue"}},
+	{{K: "X-Multi3", V: "b"}, {K: "X-Between", V: "1"}, {K: "X-Multi3", V: "a"}, {K: "X-Multi3", V: "b"}},
+}
+
+func h1OddByMask(mask int, resp bool) []peers.KV {
+	var out []peers.KV
+	for i, set := range h1OddSets {
+		if mask&(1<<i) != 0 {
+			out = append(out, set...)
+		}
+	}
+	if mask&1 != 0 {
+		if resp {
+			out = append(out, peers.KV{K: "Set-Cookie", V: "a=1; Path=/"}, peers.KV{K: "Set-Cookie", V: "b=2; HttpOnly"})
+		} else {
+			out = append(out, peers.KV{K: "Cookie", V: "a=1; b=2"})
+		}
+	}
+	return out
+}
+
+func h1OddHeaders(ch *sim.Choices, resp bool) []peers.KV {
+	return h1OddByMask(ch.Pick("work", "oddhdr", 1<<len(h1OddSets)), resp)
 }
 
 func (w *Proxy) setupH1Client(ci int, reqIdxP *int) {
@@ -1134,6 +1174,13 @@ func (w *Proxy) setupH1Client(ci int, reqIdxP *int) {
 			}
 			for x := ch.Pick("work", "nhdr", 4); x > 0; x-- {
 				m.Headers = append(m.Headers, peers.KV{K: fmt.Sprintf("X-K%d", x), V: hex.EncodeToString(ch.Bytes("work", 1+ch.Pick("work", "hl", 20)))})
+			}
+			if w.Prop == "C01" && p.Acts == nil && len(p.Filters) == 0 {
+				if odd := h1OddHeaders(ch, false); len(odd) > 0 {
+					m.Headers = append(m.Headers, odd...)
+					w.Stats["c01_h1_requests_with_odd_headers"]++
+				}
+				r.Extra["odd_resp_headers"] = fmt.Sprint(ch.Pick("work", "oddresp", 1<<len(h1OddSets)))
 			}
 			if m.Method == "POST" || m.Method == "PUT" {
 				bl := bodyLen(ch, p.BigBodies)
